@@ -522,3 +522,37 @@ class _NestedDecoys(cst.CSTTransformer):
 
 
 _reg("args:nested-decoys", "args", 0, _mk(_visit(_NestedDecoys)), False)
+
+
+class _JoinImports(cst.CSTTransformer):
+    """Consecutive import statements are written on ONE physical line, separated by ';' (import a; from b import c)."""
+
+    def __init__(self):
+        self.changed = False
+
+    def _join(self, body):
+        out, marked, keep = [], set(), []
+        for st in body:
+            ok = isinstance(st, cst.SimpleStatementLine) and all(isinstance(b, (cst.Import, cst.ImportFrom)) for b in st.body) and not any(
+                isinstance(b, cst.ImportFrom) and b.module is not None and cst.Module([]).code_for_node(b.module) == "__future__" for b in st.body)
+            prev = out[-1] if out else None
+            if ok and prev is not None and id(prev) in marked and not st.leading_lines:
+                merged = prev.with_changes(body=[b.with_changes(semicolon=cst.MaybeSentinel.DEFAULT) for b in list(prev.body) + list(st.body)], trailing_whitespace=st.trailing_whitespace)
+                marked.add(id(merged))
+                keep.append(merged)
+                out[-1] = merged
+                self.changed = True
+                continue
+            if ok:
+                marked.add(id(st))
+            out.append(st)
+        return out
+
+    def leave_Module(self, original_node, updated_node):
+        return updated_node.with_changes(body=self._join(updated_node.body))
+
+    def leave_IndentedBlock(self, original_node, updated_node):
+        return updated_node.with_changes(body=self._join(updated_node.body))
+
+
+_reg("import:joined-semicolon", "importnames", 0, _mk(_visit(_JoinImports)), True)
